@@ -1,10 +1,11 @@
-import SqlProofs.DelimR.AdHoc
+import SqlProofs.DelimChild.Reindent.AdHoc
 /-!
-# SqlProofs.DelimR.OpenWhere — "no open WHERE" survives `group_over`, `group_functions` and the iterations of
+# SqlProofs.DelimChild.Reindent.OpenWhere — "no open WHERE" survives `group_over`, `group_functions` and the iterations of
 `group_where`
 -/
 namespace Sql
-namespace DC
+namespace DCR
+open DC
 
 variable {u : Text → Text}
 
@@ -91,11 +92,12 @@ theorem groupTokens_openWhere {ks ks' : List Node} {cls : Cls} {a b : Nat} {ext 
     rw [List.getElem?_drop, show b + 1 + (j - (b + 1)) = j by omega]; exact hy
   exact any_of_getElem this hcy
 
-end DC
+end DCR
 end Sql
 
 namespace Sql
-namespace DC
+namespace DCR
+open DC
 
 variable {u : Text → Text}
 
@@ -287,5 +289,5 @@ theorem functionsLoop_openWhere :
                 exact ih _ _ _ h how1 (fun t2 tok2 hq => pend_of_nextBy _ _ hq)
         · exact ih _ _ _ h how (fun t2 tok2 hq => pend_of_nextBy _ _ hq)
 
-end DC
+end DCR
 end Sql
